@@ -21,7 +21,7 @@ REQUIRED = [f"contract:NonnegMean.{t}" for t in nn.TESTS] + ["stratum:len1", "st
 ASSUMPTIONS = ["samples are numpy arrays of floats in [0,u] (dyadic in the boundary strata, runs of non-representable values in the nondyadic stratum); documented exclusions: finite-N SPRT with "
                "random_order=False (raises by design), Kaplan-Markov/Wald with finite N",
                "numpy/pandas are trusted"]
-N_CASES = {"quick": 64000, "thorough": 2000000}
+N_CASES = {"quick": 256000, "thorough": 2048000}
 
 
 def _post(testname):
